@@ -12,7 +12,7 @@ def router_nontrivial(tok, res):
 
 
 def vreg_nontrivial(tok, res):
-    if tok[0] in ("hreq", "creq", "sreq"):
+    if tok[0] in ("hreq", "creq", "sreq", "areq"):
         return res != "none"
     if tok[0] == "run":
         return res not in ("ok", "busy")
@@ -35,6 +35,12 @@ PROP = {
             # host spellings (case, trailing dot, port suffix)
             "Frp.C06.canonicalHost_spell", "Frp.C06.spellHoldsOn_sound", "Frp.C06.model_spellHolds",
             "Frp.C06.spelled_lookup_holds",
+            # histories of registration changes INTERLEAVED WITH TRAFFIC: a lookup has no memory
+            "Frp.C06.traffic_leaves_no_trace", "Frp.C06.lookup_depends_only_on_table", "Frp.C06.same_changes_same_answer",
+            "Frp.C06.same_table_same_answer", "Frp.C06.traffic_most_specific",
+            # credentials of the route a request is forwarded along (http groups; clause of C07 / C13, KNOWN finding)
+            "Frp.C06.uniform_sound", "Frp.C06.httpGroup_checked_uniform", "Frp.C06.httpGroup_creds_checked_sound",
+            "Frp.C06.httpGroup_creds_partial", "Frp.C06.httpGroup_creds_witness",
         ],
         "engines": [
             {"name": "router", "quick_n": 20000, "thorough_n": 100000, "thorough_seeds": 6,
@@ -42,13 +48,17 @@ PROP = {
              "result_class": lambda r: "hit" if r.isdigit() else ("host" if r.startswith("x") else r[:10])},
             {"name": "vreg", "quick_n": 8000, "thorough_n": 40000, "thorough_seeds": 6,
              "nontrivial": vreg_nontrivial,
-             "result_class": lambda r: "hit" if r.isdigit() else ("dump" if r.startswith("http[") else r[:10])},
+             "result_class": lambda r: "hit" if r.isdigit() else ("dump" if r.startswith("http[") else
+                                                                  ("hit:" + r.split(":", 1)[1] if r[:1].isdigit() and ":" in r else r[:10]))},
         ],
         "rule": "router engine: generated add/del/get histories over an overlap-rich alphabet, real requests through "
                 "ServeHTTP with Host spellings combining letter case, trailing dot and port suffix; vreg engine: generated "
                 "histories of real proxy Run/Close (http incl. groups, https, tcpmux; multi-domain, multi-location, "
-                "subdomain, colliding names) interleaved with real HTTP requests, TLS ClientHellos and CONNECTs and table "
-                "dumps; a case is non-trivial when a request reaches a proxy / a lookup returns a route, a registration is "
+                "subdomain, colliding names, httpUser/httpPassword) interleaved with real HTTP requests (with and without a "
+                "basic-auth pair), TLS ClientHellos and CONNECTs and table dumps; request lines are REPEATED byte for byte "
+                "after later registration changes, and bracketed changes put the same requests immediately before and after "
+                "each kind of change (plain proxy starts / closes, first member of a group, further member, member leaves, "
+                "last member leaves) and after its undoing; a case is non-trivial when a request reaches a proxy / a lookup returns a route, a registration is "
                 "refused, or a spelling carries a dot or a port; distinct = distinct (op line, result) pairs",
         "trusted": COMMON_TRUST + [
             "model Frp/Model/Router.lean, Frp/Model/Host.lean written by hand; tied by the router engine "
@@ -60,6 +70,9 @@ PROP = {
         "assumptions": [
             "strings.ToLower is modelled for ASCII only; non-ASCII hosts are counted and skipped",
             "keep-alive reuse of pooled backend connections is not covered by the router model",
+            "credentials (httpUser/httpPassword) enter only as far as they decide whether a request is forwarded at all (401) and, "
+            "for http groups, whose credentials the group's route carries (KNOWN finding C06-httpgroup-member-credentials-ignored); "
+            "the credential clauses themselves are C07's",
             "which member of an http load-balancing group serves a request is left open (any member agrees; rotation is C13); "
             "tcpmux load-balancing groups (server/group/tcpmux.go) are not in the registration model",
             "the registration model covers sequential Run/Close; their interleaving inside one Control is C10/C12",
@@ -70,6 +83,6 @@ META = {
         "engine": "lean+harness(router,vreg)",
         "design_ref": "DESIGN.md §6 C06",
         "technique": "Lean 4 invariant + refinement-to-spec proof over all add/del histories; differential correspondence with the real vhost.Routers / getVhost / Muxer.getListener",
-        "text": "Proof: for every reachable route table (any history of registrations/removals) and every host, path, user, the modelled lookup returns a registered matching route that is at least as specific (host pattern, then user restriction, then location length) as every other registered matching route, and none iff nothing matches; duplicates are refused leaving the table unchanged; removal affects only the removed triple; every spelling of a plain host name (any letter case, optional trailing dot, optional port suffix) canonicalises to the lower-case name and is routed like it. The same holds through the server-side registration layer: for every history of proxy Run/Close (http with customDomains x locations + subdomain, group and non-group path with rollback, https, tcpmux) the route table is exactly the union of the live proxies' (domain, location, user) triples, a refused Run leaves the live set unchanged, Close removes exactly the proxy's own routes from the next lookup on, and every lookup hands the request to a live proxy whose route is the most specific live match. Kernel-checked, axioms propext/Classical.choice/Quot.sound only. The model is hand-written and tied to the code by replaying 20k (quick) generated operations per run on the real Routers/HTTPReverseProxy(ServeHTTP)/Muxer and 8k operations on real proxy.NewProxy Run/Close with real routed HTTP/TLS/CONNECT requests, and on the models, with the Lean property predicate evaluated on the implementation's own answers.",
+        "text": "Proof: for every reachable route table (any history of registrations/removals) and every host, path, user, the modelled lookup returns a registered matching route that is at least as specific (host pattern, then user restriction, then location length) as every other registered matching route, and none iff nothing matches; duplicates are refused leaving the table unchanged; removal affects only the removed triple; every spelling of a plain host name (any letter case, optional trailing dot, optional port suffix) canonicalises to the lower-case name and is routed like it. The same holds through the server-side registration layer: for every history of proxy Run/Close (http with customDomains x locations + subdomain, group and non-group path with rollback, https, tcpmux) the route table is exactly the union of the live proxies' (domain, location, user) triples, a refused Run leaves the live set unchanged, Close removes exactly the proxy's own routes from the next lookup on, and every lookup hands the request to a live proxy whose route is the most specific live match. Histories interleaved with traffic: a request leaves no trace in the state, the answers given during any history are, request by request, the lookup in the table produced by the registration changes preceding the request (whatever was asked or answered before, however often), hence every request of every history is answered by the most specific route live at that moment. For http load-balancing groups the credentials of the forwarding route are the first member's: proved unsound for members configured differently (witness; KNOWN finding, clause of C07/C13), sound for uniformly configured members and, for all join/leave histories, once joins compare credentials (repaired model behind a switch). Kernel-checked, axioms propext/Classical.choice/Quot.sound only. The model is hand-written and tied to the code by replaying 20k (quick) generated operations per run on the real Routers/HTTPReverseProxy(ServeHTTP)/Muxer and 8k operations on real proxy.NewProxy Run/Close with real routed HTTP/TLS/CONNECT requests (identical requests repeated across every kind of registration change), and on the models, with the Lean property predicate evaluated on the implementation's own answers.",
         "note": "Trusted: Lean kernel; the hand-written models of router.go/getVhost/getListener/CanonicalHost and of the Run/Close registration code (server/proxy/http.go, https.go, tcpmux.go, server/group/http.go) and the correspondence harness generators (ASCII hosts; non-ASCII skipped and counted). Not covered by the theorem: reuse of pooled keep-alive backend connections across re-registration (net/http Transport), the golib mux dispatch when the vhost port is shared with the control port.",
     }
